@@ -178,7 +178,7 @@ def run(ck, F, E):
             v = strip_expr(body.expr(rv["ops"][names.index("index")]))
             ck.require(v[0] == "const" and v[1].get("int") == 0, "C13:CURSOR:new-zero", "monotone cursor",
                        "Tokenizer starts with index 0", "Tokenizer is constructed with a non-zero cursor", sp)
-    ck.floor("C13.writes to Tokenizer.index", n_writes, 14)
+    ck.floor("C13.writes to Tokenizer.index", n_writes, 8)
 
     # LineCruncher: position counts the byte just returned; increments by 1 only
     lc = F.one("<abasic_core::line_cruncher::LineCruncher as core::iter::traits::iterator::Iterator>::next")
@@ -193,7 +193,20 @@ def run(ck, F, E):
                 incs.append(show(e))
                 ok = e[0] == "place" and e[1][0] == "binop" and e[1][1] == "AddWithOverflow" and \
                     strip_expr(e[1][3])[0] == "const" and strip_expr(e[1][3])[1].get("int") == 1
-                ck.require(ok, "C13:CRUNCHER:step", "cruncher", "LineCruncher.index += 1",
+                how = "LineCruncher.index += 1"
+                if not ok:
+                    # the same walk written with `position`: index += p + 1 where p is the offset, within bytes[index..], of
+                    # the byte that is returned; or index = bytes.len() when nothing but blanks is left
+                    names_ = [x[1].split("::")[-1] for x in expr_calls(e)]
+                    if e[0] == "call" and e[1].endswith("::len") and "bytes" in show(e):
+                        ok, how = True, "index = bytes.len() (only blanks were left)"
+                    elif e[0] == "place" and e[1][0] == "binop" and e[1][1] == "AddWithOverflow" and "position" in names_ and \
+                            "index" in show(strip_expr(e[1][2])):
+                        inner = strip_expr(e[1][3])
+                        if inner[0] == "place" and inner[1][0] == "binop" and inner[1][1] == "AddWithOverflow" and \
+                                strip_expr(inner[1][3])[0] == "const" and strip_expr(inner[1][3])[1].get("int") == 1:
+                            ok, how = True, "index += position(..) + 1 over bytes[index..]"
+                ck.require(ok, "C13:CRUNCHER:step", "cruncher", how,
                            "LineCruncher advances by something other than one byte: %s" % show(e), sp)
         somes = list(aggregates(lc, "core::option::Option", "Some"))
         ok = False
@@ -267,20 +280,28 @@ def run(ck, F, E):
     a = get_fn(ck, F, "Tokenizer::remaining_tokens")
     b2 = get_fn(ck, F, "Tokenizer::remaining_tokens_and_ranges")
     if a is not None and b2 is not None:
-        def skel(body):
-            out = []
-            for c in body.calls():
-                nm = c.callee.split("::")[-1]
-                if nm in ("into_iter", "next", "branch", "push", "from_residual"):
-                    out.append(nm)
-            return out
-        sa, sb = skel(a), skel(b2)
-        ok = sa.count("next") == 1 and sb.count("next") == 1 and sa.count("branch") == 1 and sb.count("branch") == 1 \
-            and sa.count("push") == 1 and sb.count("push") == 2 and bool(a.natural_loops()) and bool(b2.natural_loops())
-        ck.require(ok, "C13:SIBLING:collectors", "sibling collectors",
-                   "both collectors are one loop: next, `?`, push (tokens%s)" % "/ranges",
-                   "remaining_tokens and remaining_tokens_and_ranges no longer perform the same iteration: %s vs %s" % (sa, sb),
-                   a.span)
+        def complete_iteration(body, n_push):
+            """the collector hands out every item of the token iterator, stopping at the first error: either a loop
+            `for item in &mut self { let x = item?; push.. }` or `(&mut self)[.map(..)].collect::<Result<Vec<_>, _>>()`"""
+            names = [c.callee.split("::")[-1] for c in body.calls()]
+            banned = [n for n in names if n in ("filter", "filter_map", "skip", "take", "step_by", "rev", "take_while", "skip_while",
+                                                "nth", "last", "find", "dedup", "truncate", "pop", "remove")]
+            if banned:
+                return None
+            if body.natural_loops():
+                if names.count("next") == 1 and names.count("branch") == 1 and names.count("push") == n_push:
+                    return "loop: next, `?`, push x%d" % n_push
+                return None
+            cols = [c for c in body.calls() if c.callee.split("::")[-1] == "collect"]
+            if len(cols) == 1 and any("Result<" in g and "Vec<" in g for g in cols[0].gargs) and 1 in {0} | set() or \
+                    (len(cols) == 1 and any("Result<" in g and "Vec<" in g for g in cols[0].gargs)):
+                return "collect::<Result<Vec<_>, _>>() over the whole iterator"
+            return None
+        sa, sb = complete_iteration(a, 1), complete_iteration(b2, 2)
+        ck.require(sa is not None and sb is not None, "C13:SIBLING:collectors", "sibling collectors",
+                   "both collectors hand out every token up to the first error (%s / %s)" % (sa, sb),
+                   "remaining_tokens and remaining_tokens_and_ranges no longer both iterate the whole token stream "
+                   "(tokens: %s, tokens+ranges: %s)" % (sa, sb), a.span)
 
 
 TRANSPORT = ("as_ref", "deref", "as_str", "borrow", "next", "into_iter", "enumerate", "iter", "as_bytes")
@@ -321,7 +342,7 @@ def same_text_rule(ck, F, P):
         ck.require(len(roots) == 1, "%s:TEXT:%s:one-source" % (P, body.path.split("::")[-1]), "ranges refer to the caller's text",
                    "line-number parser and tokenizer read the same parameter", "%s feeds the line-number parser and the "
                    "tokenizer from different parameters %s" % (body.path, sorted(roots)), body.span)
-    ck.floor("%s.callers handing text to the tokenizer / line-number parser" % P, n, 4)
+    ck.floor("%s.callers handing text to the tokenizer / line-number parser" % P, n, 2)
 
 
 def errpos_rules(ck, F, P):
